@@ -22,6 +22,8 @@ type generator struct {
 	maxFaults int
 	faults    int
 	mayCancel bool
+	slowIO    bool // prefer letting the clock run and uploads arrive while a collaborator call is in progress
+	calm      bool // hardly let the clock run (used to explore what follows a divergence at the same instant)
 }
 
 func (g *generator) next(s *sut, v *view, summary string) (string, bool) {
@@ -91,7 +93,21 @@ func (g *generator) next(s *sut, v *view, summary string) (string, bool) {
 			}
 		}
 	}
-	add(7, fmt.Sprintf("tick %d", amounts[r.Intn(len(amounts))]))
+	if g.calm {
+		add(1, fmt.Sprintf("tick %d", r.PickInt(1, s.cfg.retryInt)))
+	} else {
+		add(7, fmt.Sprintf("tick %d", amounts[r.Intn(len(amounts))]))
+	}
+	if g.slowIO && (parkSync || parkP || parkR) {
+		// a data sync / state write that takes longer than the minimum epoch interval, with uploads during it
+		add(10, fmt.Sprintf("tick %d", s.cfg.minInt+r.PickInt(0, 1, 7, s.cfg.minInt)))
+		if v.blocks > 0 {
+			add(8, fmt.Sprintf("alloc %d %d", v.blocks-1, r.PickInt(1, 5, 16)))
+		}
+		if len(open) > 0 {
+			add(10, fmt.Sprintf("fin %d", open[len(open)-1]))
+		}
+	}
 	if g.mayCancel && !v.cancelled {
 		add(1, "cancel")
 	}
@@ -130,6 +146,29 @@ func scripted(ops []string) func(*sut, *view, string) (string, bool) {
 	}
 }
 
+// then plays a fixed prefix and continues with a generator.
+func then(prefix []string, g *generator) func(*sut, *view, string) (string, bool) {
+	i := 0
+	return func(s *sut, v *view, summary string) (string, bool) {
+		if i < len(prefix) {
+			i++
+			return prefix[i-1], true
+		}
+		return g.next(s, v, summary)
+	}
+}
+
+// signature of a disagreement without the concrete values (used to report each kind of divergence once).
+func signature(detail string) string {
+	var b strings.Builder
+	for _, c := range detail {
+		if c < '0' || c > '9' {
+			b.WriteRune(c)
+		}
+	}
+	return b.String()
+}
+
 func report(run *hx.Run, name string, res caseResult) {
 	nontrivial := res.ops["fin"] >= 1 && res.ops["tick"] >= 1 && len(res.script) >= 8
 	run.Case(res.script, nontrivial, res.validated)
@@ -137,6 +176,7 @@ func report(run *hx.Run, name string, res caseResult) {
 		run.CountN("op:"+k, n)
 	}
 	run.Count(fmt.Sprintf("faults:%d", res.faults))
+	run.CountN("slow-call(tick>=interval while a call is parked)", res.slowCalls)
 	run.CountN("storeLock-contended", res.contended)
 	run.CountN("storeLock-wait", res.lockWaits)
 	if res.abandoned != "" {
@@ -179,13 +219,63 @@ func TestC07(t *testing.T) {
 	run.SetRule("schedules of push/pop/alloc/fin/tick/cancel and releases (ok/fail) of the parked data sync and state writes, " +
 		"chosen step by step among the applicable operations; non-trivial = at least one acknowledged-or-refused finalizer, one clock advance and 7 operations; distinct by script hash")
 
+	seenDivergence := map[string]bool{}
+	seenOracle := map[string]bool{}
+	baseSpin := spinTimeout
+	afterOracle := 0 // cases run since the first failing input was found
 	handle := func(name string, cfg config, res caseResult) {
+		if len(seenOracle) > 0 {
+			afterOracle++
+		}
+		if f := failing(res); strings.HasPrefix(f, "o:") && seenOracle[f] {
+			run.Count("oracle-repeat")
+			run.Case(res.script, false, res.validated)
+			return
+		}
+		defer func() {
+			if run.Findings() > 0 {
+				// something is wrong already: do not spend seconds per case waiting for calls that
+				// a diverged implementation will never make
+				baseSpin = 250 * time.Millisecond
+				spinTimeout = baseSpin
+			}
+		}()
+		if failing(res) == "d" {
+			// The implementation left the model. That alone is not a failing input for the property:
+			// search the schedules that continue from the point of divergence for one the oracle rejects
+			// (once per kind of divergence; repeats are only counted).
+			sig := signature(res.disagree)
+			if seenDivergence[sig] {
+				run.Count("divergence-repeat")
+				run.Case(res.script, false, res.validated)
+				return
+			}
+			seenDivergence[sig] = true
+			prefix := res.script[1:]
+			if res.diverged > 0 && res.diverged <= len(res.script) {
+				prefix = res.script[1:res.diverged]
+			}
+			for k := 0; k < 60; k++ {
+				r := hx.NewRand(run.Seed, "C07/continue/"+name, k)
+				g := &generator{r: r, steps: r.Range(4, 30), maxFaults: r.PickInt(0, 0, 1), calm: k%3 != 0, slowIO: k%3 == 0}
+				ext := runCase(t, model, cfg, then(prefix, g))
+				run.Count("continuation-searched")
+				if len(ext.viol) > 0 {
+					res = ext
+					name += "/continued"
+					break
+				}
+			}
+		}
+		if f := failing(res); strings.HasPrefix(f, "o:") {
+			seenOracle[f] = true
+		}
 		if f := failing(res); f != "" && len(res.script) > 2 {
 			spinTimeout = 300 * time.Millisecond // candidates that stall are re-checked with the full timeout below
 			small := hx.Shrink(res.script, 1, func(sc []string) bool {
 				return failing(runCase(t, model, cfg, scripted(sc[1:]))) == f
 			})
-			spinTimeout = 3 * time.Second
+			spinTimeout = baseSpin
 			if len(small) < len(res.script) {
 				if r2 := runCase(t, model, cfg, scripted(small[1:])); failing(r2) == f {
 					report(run, name+"/shrunk", r2)
@@ -227,7 +317,7 @@ func TestC07(t *testing.T) {
 		count := 0
 		var rec func(seq []string, d int)
 		rec = func(seq []string, d int) {
-			if run.Findings() >= 10 {
+			if run.Findings() >= 10 || afterOracle >= 40 {
 				return
 			}
 			if d == 0 {
@@ -244,10 +334,10 @@ func TestC07(t *testing.T) {
 		run.Extra("exhaustive_sequences", count)
 	}
 	n := run.Scale(6000, 90000)
-	for i := 0; i < n && run.Findings() < 10; i++ {
+	for i := 0; i < n && run.Findings() < 10 && afterOracle < 40; i++ {
 		r := hx.NewRand(run.Seed, "C07", i)
 		cfg := genCfg(r)
-		g := &generator{r: r, steps: r.Range(15, 70), maxFaults: r.PickInt(0, 1, 2, 3, 3), mayCancel: r.Chance(1, 3)}
+		g := &generator{r: r, steps: r.Range(15, 70), maxFaults: r.PickInt(0, 1, 2, 3, 3), mayCancel: r.Chance(1, 3), slowIO: r.Chance(1, 3)}
 		handle(fmt.Sprintf("seed%d/case%d", run.Seed, i), cfg, runCase(t, model, cfg, g.next))
 	}
 }
